@@ -15,6 +15,7 @@ import (
 
 	"verifharness/gen"
 	"verifharness/hx"
+	"verifharness/ref/authvar"
 	"verifharness/ref/cms"
 	"verifharness/seeds"
 )
@@ -27,6 +28,7 @@ type Case struct {
 	Role     string // signer | other | twin (same issuer and serial, another key)
 	AllFlips bool   // additionally change every byte of the blob in turn
 	Primer   hx.Hex // when set: the same parsed object is first verified against this (genuine signer) certificate
+	Orig     hx.Hex // the valid blob the case was derived from (set for derived blobs only)
 }
 
 func genCase(t *rapid.T) Case {
@@ -69,6 +71,9 @@ func genCase(t *rapid.T) Case {
 	if rapid.IntRange(0, 11).Draw(t, "mutate") != 0 {
 		if m, class := gen.MutateCMS(t, blob, env); class != "" {
 			c.Blob, c.Class = m, class
+			if rapid.IntRange(0, 2).Draw(t, "keep_original") == 0 {
+				c.Orig = blob
+			}
 		}
 		if rapid.IntRange(0, 5).Draw(t, "second") == 0 {
 			if m, class := gen.MutateCMS(t, c.Blob, env); class != "" {
@@ -178,6 +183,29 @@ func checkOne(blob []byte, cert *x509.Certificate, class string, primer ...*x509
 	return matched, nil
 }
 
+// descriptorBufferReuse: the derived blob arrives inside an authentication descriptor that is decoded with Unmarshal
+// from a buffer of the caller's; the caller then uses the same buffer for the next descriptor (which carries the
+// valid original) and only afterwards asks the first one. A decoded descriptor is a value of its own.
+func descriptorBufferReuse(blob, orig []byte, cert *x509.Certificate, class string) error {
+	var ts [16]byte
+	buf := bytes.NewBuffer(authvar.EncodeAuth2(ts, 0x0200, 0x0ef1, authvar.PKCS7GUID, blob))
+	var first signature.EFIVariableAuthentication2
+	if err := first.Unmarshal(buf); err != nil {
+		return nil
+	}
+	buf.Reset()
+	buf.Write(authvar.EncodeAuth2(ts, 0x0200, 0x0ef1, authvar.PKCS7GUID, orig))
+	var second signature.EFIVariableAuthentication2
+	second.Unmarshal(buf)
+	hx.Class("descriptor_decoded_from_a_buffer_that_is_reused")
+	if ok, err := first.Verify(cert); ok && err == nil {
+		if v := cms.Accepts(blob, cert); !v.OK {
+			return fmt.Errorf("EFIVariableAuthentication2.Verify reports success for a descriptor decoded from a buffer the caller reused afterwards; its blob (class %s, %d bytes) is rejected by the reference verifier: %s", class, len(blob), v.Reason)
+		}
+	}
+	return nil
+}
+
 func short(class string) string {
 	for i := 0; i < len(class); i++ {
 		if class[i] == '+' {
@@ -202,6 +230,11 @@ func checkCase(c Case) error {
 	matched, err := checkOne(c.Blob, cert, c.Class, primer)
 	if err != nil {
 		return fmt.Errorf("[seed %s, verifying certificate: %s] %w", c.Seed, c.Role, err)
+	}
+	if len(c.Orig) > 0 && !bytes.Equal(c.Orig, c.Blob) {
+		if err := descriptorBufferReuse(c.Blob, c.Orig, cert, c.Class); err != nil {
+			return fmt.Errorf("[seed %s, verifying certificate: %s] %w", c.Seed, c.Role, err)
+		}
 	}
 	if c.Class != "none" && matched {
 		hx.NonTrivial(c.Blob, c.Cert)
